@@ -20,7 +20,6 @@ import (
 
 var errInvalidPrefix = errors.New("route: prefix must not be empty")
 var errInvalidTarget = errors.New("route: target must not be empty")
-var errNoMatch = errors.New("route: no target match")
 
 // table stores the active routing table. Must never be nil.
 var table atomic.Value
@@ -199,13 +198,14 @@ func (t Table) weighRoute(d *RouteDef) error {
 		return errInvalidPrefix
 	}
 
+	// a weight command which does not select any target is a no-op: the
+	// targets it refers to may come and go (e.g. the instances with a given
+	// tag are currently unhealthy) and must not invalidate the other commands.
 	if t[host] == nil || t[host].find(path) == nil {
-		return errNoMatch
+		return nil
 	}
 
-	if n := t[host].find(path).setWeight(d.Service, d.Weight, d.Tags); n == 0 {
-		return errNoMatch
-	}
+	t[host].find(path).setWeight(d.Service, d.Weight, d.Tags)
 	return nil
 }
 
